@@ -55,8 +55,8 @@ class Ctx:
         self.tier = tier
         self.prop = prop
         self.repo = Repo(root)
-        from .fields import canonicalise_fields
-        self.field_renames = canonicalise_fields(self.repo)
+        from .fields import canonicalise_fields, canonicalise_methods
+        self.field_renames = canonicalise_fields(self.repo) + canonicalise_methods(self.repo)
         self.inlined = inline_fresh_helpers(self.repo)
         resolve_aliases(self.repo)
         self.hier = Hierarchy(self.repo)
@@ -424,6 +424,15 @@ class _ParamSubst(ast.NodeTransformer):
         return n
 
 
+def _known_module_functions():
+    import json
+    import os
+    path = os.path.join(os.path.dirname(os.path.abspath(__file__)), "functions.json")
+    if not os.path.exists(path):
+        return None
+    return {k: set(v) for k, v in json.load(open(path)).items()}
+
+
 def _helper_candidates(repo: Repo, prot: set):
     """private own-class methods that no rule names, with every use a supported `self.name(...)` call in the same class"""
     occ: dict[str, list] = {}
@@ -431,14 +440,25 @@ def _helper_candidates(repo: Repo, prot: set):
         for n in ast.walk(tree):
             if isinstance(n, ast.Attribute):
                 occ.setdefault(n.attr, []).append(n)
+    nocc: dict[tuple, list] = {}
+    for rel, tree in repo.non_trio_modules().items():
+        for n in ast.walk(tree):
+            if isinstance(n, ast.Name):
+                nocc.setdefault((rel, n.id), []).append(n)
+    known = _known_module_functions()
     out = []
     for f in list(repo.all_funcs):
-        if f.module.endswith("_trio.py") or f.cls is None or f.parent is not None:
+        if f.module.endswith("_trio.py") or f.parent is not None:
             continue
         h = f.node
         name = h.name
         if not name.startswith("_") or name.startswith("__") or name in prot:
             continue
+        is_method = f.cls is not None
+        if not is_method:
+            # module-level functions: only helpers that did not exist in the tree the rules were written against ("extract function")
+            if known is None or name in known.get(f.module, ()) or name in occ:
+                continue
         decos = [ast.unparse(d) for d in h.decorator_list]
         if decos not in ([], ["staticmethod"]):
             continue
@@ -450,34 +470,29 @@ def _helper_candidates(repo: Repo, prot: set):
         if any(isinstance(x, (ast.FunctionDef, ast.AsyncFunctionDef, ast.ClassDef, ast.Lambda, ast.Yield, ast.YieldFrom, ast.Global, ast.Nonlocal))
                for s_ in body for x in ast.walk(s_)):
             continue
-        if any(isinstance(x, ast.Attribute) and x.attr == name for s_ in body for x in ast.walk(s_)):
+        if any((isinstance(x, ast.Attribute) and x.attr == name) or (isinstance(x, ast.Name) and x.id == name) for s_ in body for x in ast.walk(s_)):
             continue        # recursive
         rets = [x for s_ in body for x in ast.walk(s_) if isinstance(x, ast.Return)]
         last_ret = body[-1] if isinstance(body[-1], ast.Return) else None
         early = [r for r in rets if r is not last_ret]
-        if early:
-            # an early return becomes a jump out of a synthetic try block: it must not sit inside a try statement of the helper
-            bad = False
-            for r in early:
-                cur = getattr(r, "_parent", None)
-                while cur is not None and cur is not h:
-                    if isinstance(cur, ast.Try):
-                        bad = True
-                    cur = getattr(cur, "_parent", None)
-            if bad:
-                continue
-        sites = occ.get(name, [])
+        # (an early return becomes a jump out of a synthetic try block; the CFG routes that jump past the helper's own handlers
+        # and through its finally blocks, exactly like a return)
+        sites = occ.get(name, []) if is_method else nocc.get((f.module, name), [])
         if not 1 <= len(sites) <= 8:
             continue
         plans = []
         ok = True
         for at in sites:
             call = getattr(at, "_parent", None)
-            if not (isinstance(call, ast.Call) and call.func is at and isinstance(at.value, ast.Name) and at.value.id == "self"):
+            if is_method:
+                if not (isinstance(call, ast.Call) and call.func is at and isinstance(at.value, ast.Name) and at.value.id == "self"):
+                    ok = False
+                    break
+            elif not (isinstance(call, ast.Call) and call.func is at and isinstance(at.ctx, ast.Load)):
                 ok = False
                 break
             caller = repo.func_of(call)
-            if caller is None or caller.cls != f.cls or caller.node is h or any(x is call for x in ast.walk(h)):
+            if caller is None or (is_method and caller.cls != f.cls) or caller.module != f.module or caller.node is h or any(x is call for x in ast.walk(h)):
                 ok = False
                 break
             outer, par = call, getattr(call, "_parent", None)
@@ -547,7 +562,7 @@ def inline_fresh_helpers(repo: Repo, max_inlines: int = 200) -> list[str]:
             prot.add(name)
             continue
         allp = [x.arg for x in a.posonlyargs + a.args]
-        params = allp if h.decorator_list else allp[1:]
+        params = allp if (h.decorator_list or f.cls is None) else allp[1:]
         defaults = dict(zip(reversed(allp), reversed(a.defaults))) if a.defaults else {}
         kwonly = {x.arg: d for x, d in zip(a.kwonlyargs, a.kw_defaults)}
         stored = {x.id for s_ in body for x in ast.walk(s_) if isinstance(x, ast.Name) and isinstance(x.ctx, (ast.Store, ast.Del))}
@@ -619,6 +634,14 @@ def inline_fresh_helpers(repo: Repo, max_inlines: int = 200) -> list[str]:
                     renames[last_ret.value.id] = tg_.id
             res = f"_res__{tag}"
             jump = f"_InlineReturn__{tag}"
+            # `t = helper(...)` with several returns: every `return v` becomes `t = v` (+ jump) - the caller's own variable is the
+            # result variable, so that facts and patterns of the rules speak about the same name as in the un-extracted code
+            own_target = None
+            if shape == "assign" and early and isinstance(st, ast.Assign) and isinstance(st.targets[0], ast.Name):
+                tn_ = st.targets[0].id
+                if not any(isinstance(x, ast.Name) and x.id == tn_ for v_ in mapping.values() for x in ast.walk(v_)) and tn_ not in renames.values():
+                    own_target = tn_
+                    res = tn_
             new = []
             for s_ in body:
                 c = clone(s_)
@@ -658,9 +681,13 @@ def inline_fresh_helpers(repo: Repo, max_inlines: int = 200) -> list[str]:
                     out.append(s2)
                 return out
 
+            falls_through = not isinstance(body[-1], (ast.Return, ast.Raise))
             new = conv(new)
             pre = []
-            if need_res:
+            if own_target is not None:
+                if falls_through:
+                    new.append(ast.copy_location(ast.Assign(targets=[ast.Name(id=res, ctx=ast.Store())], value=ast.Constant(None)), st))
+            elif need_res:
                 pre.append(ast.copy_location(ast.Assign(targets=[ast.Name(id=res, ctx=ast.Store())], value=ast.Constant(None)), st))
             if use_block:
                 handler = ast.ExceptHandler(type=ast.Name(id=jump, ctx=ast.Load()), name=None, body=[ast.copy_location(ast.Pass(), st)])
@@ -669,8 +696,8 @@ def inline_fresh_helpers(repo: Repo, max_inlines: int = 200) -> list[str]:
                 new = [blk]
             new = pre + new
             if shape == "assign":
-                if direct is not None and same_var is not None:
-                    pass        # the helper's own variable *is* the target now
+                if (direct is not None and same_var is not None) or own_target is not None:
+                    pass        # the helper's own variable *is* the target now / the returns assign the target themselves
                 else:
                     repl = clone(st)
                     repl.value = direct.value if direct is not None else ast.Name(id=res, ctx=ast.Load())
